@@ -31,6 +31,14 @@ CLAIMED = {
     text='Kernel-checked Lean 4 theorems over an executable L0 model of MemoryStore (parallel values/state/keys arrays, NOTSET/SET/CLEARED markers, growth, typed coercion, mapper dicts and index counter): C14_inv_new/step/run (arrays stay parallel over every history), C14_get (get reads the abstract per-index map), C14_add_fresh, C14_read_your_write, C14_del_add, C14_frame (no operation on index i changes another allocated index), C14_add_map_index, C14_indices_fresh (indices handed out over any history are pairwise distinct), C14_map_lookup; the model is tied to /repo by replaying random operation histories on the real MemoryStore / StoreManager and comparing every return value and iterate() dump.',
     design='§7 C14', technique='Lean 4 proof (data refinement of the concrete arrays to an abstract per-index map, induction over the operation history) + differential correspondence on random histories',
     note='Trusted: Lean kernel, propext/Classical.choice/Quot.sound, hand-written model (tested each run), CPython list/array.array/dict semantics modelled not verified.'),
+ 'C16': dict(
+    text='Kernel-checked Lean 4 theorems about rxsci\'s streaming compression wrappers, modulo an explicit library contract (CodecContract: what zlib/zstandard streaming objects are assumed to do): C16_roundtrip (any re-chunking, empty chunks anywhere: payload = original, completion, no error), C16_truncated (strict prefix: on_error, never completion), C16_roundtrip_zlib, C16_compress_shape, C16_nonvacuous (a toy codec satisfies the contract). The libraries themselves are not modelled; the wrapper model is tied to /repo by replaying the recorded library transcript through it and comparing event sequences; the round trip and truncation are judged on the real libraries by the oracle.',
+    design='§7 C16', technique='Lean 4 proof of the wrapper logic under an explicit codec contract + transcript-replay correspondence + real round-trip / truncation oracle',
+    note='Trusted: Lean kernel, propext/Classical.choice/Quot.sound; zlib and zstandard behaviour is an assumption (contract), tested not proved.'),
+ 'C17': dict(
+    text='Kernel-checked Lean 4 theorems over a model that IMPLEMENTS utf-8, utf-16, utf-32 and latin-1 encoders and incremental decoders (not assumed from Python): C17_roundtrip (every string list, every cutting of the encoded bytes incl. inside multi-byte sequences and the BOM, empty chunks: decoding succeeds and the text is unchanged), C17_bom_once, C17_char_roundtrip. The model is compared byte for byte / character for character with Python codecs through rxsci.data.encode/decode on every run, incl. re-subscription and the json dump_to_file path.',
+    design='§7 C17', technique='Lean 4 proof (prefix-code decoder monotonicity + split-over-append induction, omega bit arithmetic) + differential correspondence with Python codecs',
+    note='Trusted: Lean kernel, propext/Classical.choice/Quot.sound; hand-written codec model tested against CPython codecs each run.'),
  'C15': dict(
     text='Kernel-checked Lean 4 theorems (C15_line, C15_line_rechunk, C15_lp, C15_lp_incomplete, C15_prefix_roundtrip, C15_lp_frame_guard) over an executable model of line.unframe and length_prefix.unframe: for every item list, every chunking (empty chunks, cuts anywhere), every prefix size >= 1 and both byte orders the un-framer returns exactly the items; the model is tied to /repo on every run by a differential check that drives the real operators chunk by chunk and compares per-chunk outputs with the compiled model.',
     design='§7 C15', technique='Lean 4 proof by induction over the chunk list (split-over-append lemma) + differential correspondence check',
